@@ -201,6 +201,10 @@ def run(chk, replay=None):
                 fresh = o2[k - 2].split()[1] == '1'
                 if exp and not again:
                     stats['repair_without_clearing_fails'] += 1
+                    # a file that was missing or not XML at all has left nothing in the library: once it is repaired the same
+                    # importer resolves it without the library being emptied (what a parsed file leaves there is the caller's to replace)
+                    if label.split()[1] in ('missing', 'notxml', 'truncate') and fresh:
+                        oracle.append(('after the fault (%s) is repaired, resolveImports on the same importer still fails although the faulty file left nothing to be cached' % label, rec)); continue
                 if not ex2 and exp == W.resolvable(repaired, ORIGIN, True) and fresh != exp and not (W.unvisited_imports(repaired, ORIGIN) and kf):
                     oracle.append(('after the fault (%s) is repaired and the library emptied, a fresh resolveImports on the same importer returns %s, expected %s' % (label, fresh, exp), rec)); continue
     finally:
